@@ -286,9 +286,11 @@ class Srv:
             ent2, ex2 = h.arm("SendingConsts")
             if ent != ent2 or not (ex and ex2):
                 res.bad(R, "consts×Validated/SendingConsts", "constants must be accepted alike in Validated and SendingConsts")
-            self.edge_simple(h, "consts×Validated|SendingConsts", ent, ex and ex2, must=[("set_state", None), ("insert_consts", None), ("reply_ok", None)], never=["reply_err", "check_consts"], no_break=True, restore=True)
+            self.edge_simple(h, "consts×Validated|SendingConsts", ent, ex and ex2, must=[("set_state", None), ("insert_consts", None), ("reply_ok", None)], never=["reply_err", "check_consts"], no_break=True, restore=True, state="Validated")
+            if len(h.switches) >= 2:
+                self.edge_simple(h, "consts×SendingConsts", ent2, ex and ex2, must=[("set_state", None), ("insert_consts", None), ("reply_ok", None)], never=["reply_err", "check_consts"], no_break=True, restore=True, state="SendingConsts")
             ent, ex = h.arm("SendingConstsCompleted")
-            self.edge_simple(h, "consts×SendingConstsCompleted", ent, ex, must=[("insert_consts", None), ("reply_ok", None), ("check_consts", None)], never=["reply_err"], no_break=True)
+            self.edge_simple(h, "consts×SendingConstsCompleted", ent, ex, must=[("insert_consts", None), ("reply_ok", None), ("check_consts", None)], never=["reply_err"], no_break=True, state="SendingConstsCompleted")
         h = self.h("internal_consts_sent")
         if h:
             ent, ex = h.arm("SendingConsts")
@@ -317,9 +319,11 @@ class Srv:
         if h:
             self.dispatch_rules(h)
 
-    def edge_simple(self, h, inst, ent, explicit, must=(), some=(), never=(), no_break=False, restore=False):
+    def edge_simple(self, h, inst, ent, explicit, must=(), some=(), never=(), no_break=False, restore=False, state=None):
         res = self.res
         R = "R9.edge"
+        if state is not None:
+            h = h.for_state(state)
         k, b = h.user
         if ent is None or not explicit:
             res.bad(R, inst, "the required transition has no arm of its own (state not handled, or only by the error fallback)", fl(b.span))
@@ -592,7 +596,10 @@ class Srv:
         bi, tm, other, via, p = h.switch
         if via == "taken" or h.events_in(reg, lambda e: False):
             pass
-        if not st:
+        taken_before = [e for e in h.evs(K("take_state")) if ent in b.reachable_from(e.block) or e.block in reg]
+        if not st and via == "field" and not taken_before:
+            pass    # the state is only inspected on this path (`matches!(self.state_kind, ..)`): nothing to write back
+        elif not st:
             # state bound by move (`state => ...`) or taken: must be written back
             probs.append("state is not written back")
         elif not all(e.detail.startswith("restore") for e in st):
